@@ -27,7 +27,9 @@ void* const SENTINEL = (void*) (uintptr_t) 0x5e471ae1;
 // ---------------------------------------------------------------- value operations on handles (for const checks)
 // faith: re-computes an entry point of the interfaced class on C++ clones taken before the call.
 // Returns 0 when the entry point is not in the generic table, 1 when the C result agrees, -1 (with `why') when not.
-struct FaithArgs { std::string op; const void* x_before; const void* y_before; const void* x_after; unsigned long d0, d1; int r; };
+struct FaithArgs { std::string op; const void* x_before; const void* y_before; const void* x_after; unsigned long d0, d1; int r;
+                   std::vector<std::pair<std::string, const void*> > hs;     // every handle of the call, in argument order (type name, object after the call)
+                   template <class T> const T* h(size_t i, const char* type) const { return i < hs.size() && hs[i].first == type ? static_cast<const T*>(hs[i].second) : nullptr; } };
 struct TypeOps { std::function<void*(const void*)> clone; std::function<bool(const void*, const void*)> equal; std::function<void(void*)> destroy;
                  std::function<int(const FaithArgs&, std::string&)> faith;
                  std::function<bool(void*, const void*)> join; };   // x := upper bound of x and y (false: not possible)
@@ -102,6 +104,27 @@ template <class T, class EQ> int faith_domain(const FaithArgs& a, std::string& w
     else if (op == "difference_assign" && yb) { c.difference_assign(*yb); mut = true; }
     else if (op == "time_elapse_assign" && yb) { c.time_elapse_assign(*yb); mut = true; }
     else if (op == "concatenate_assign" && yb) { c.concatenate_assign(*yb); mut = true; }
+    // operations with syntactic arguments (read from the const handles, which the call does not change)
+    else if ((op == "bounds_from_above" || op == "bounds_from_below") && a.h<PPL::Linear_Expression>(1, "Linear_Expression")) {
+      const PPL::Linear_Expression& le = *a.h<PPL::Linear_Expression>(1, "Linear_Expression"); expect_bool = op == "bounds_from_above" ? xb.bounds_from_above(le) : xb.bounds_from_below(le); }
+    else if ((op == "maximize" || op == "minimize") && a.h<PPL::Linear_Expression>(1, "Linear_Expression") && a.h<PPL::Coefficient>(2, "Coefficient") && a.h<PPL::Coefficient>(3, "Coefficient")) {
+      const PPL::Linear_Expression& le = *a.h<PPL::Linear_Expression>(1, "Linear_Expression"); PPL::Coefficient n, d; bool m;
+      bool b = op == "maximize" ? xb.maximize(le, n, d, m) : xb.minimize(le, n, d, m); expect_bool = b;
+      if (b && a.r > 0 && (*a.h<PPL::Coefficient>(2, "Coefficient") != n || *a.h<PPL::Coefficient>(3, "Coefficient") != d)) { why = "the numerator / denominator written by the C call differ from those of the C++ operation"; return -1; } }
+    else if ((op == "affine_image" || op == "affine_preimage") && a.h<PPL::Linear_Expression>(1, "Linear_Expression") && a.h<PPL::Coefficient>(2, "Coefficient")) {
+      const PPL::Linear_Expression& le = *a.h<PPL::Linear_Expression>(1, "Linear_Expression"); const PPL::Coefficient& den = *a.h<PPL::Coefficient>(2, "Coefficient");
+      if (op == "affine_image") c.affine_image(PPL::Variable(a.d0), le, den); else c.affine_preimage(PPL::Variable(a.d0), le, den); mut = true; }
+    else if ((op == "bounded_affine_image" || op == "bounded_affine_preimage") && a.h<PPL::Linear_Expression>(1, "Linear_Expression") && a.h<PPL::Linear_Expression>(2, "Linear_Expression") && a.h<PPL::Coefficient>(3, "Coefficient")) {
+      const PPL::Linear_Expression& lb = *a.h<PPL::Linear_Expression>(1, "Linear_Expression"); const PPL::Linear_Expression& ub = *a.h<PPL::Linear_Expression>(2, "Linear_Expression"); const PPL::Coefficient& den = *a.h<PPL::Coefficient>(3, "Coefficient");
+      if (op == "bounded_affine_image") c.bounded_affine_image(PPL::Variable(a.d0), lb, ub, den); else c.bounded_affine_preimage(PPL::Variable(a.d0), lb, ub, den); mut = true; }
+    else if ((op == "add_constraint" || op == "refine_with_constraint") && a.h<PPL::Constraint>(1, "Constraint")) {
+      const PPL::Constraint& k = *a.h<PPL::Constraint>(1, "Constraint"); if (op == "add_constraint") c.add_constraint(k); else c.refine_with_constraint(k); mut = true; }
+    else if ((op == "add_constraints" || op == "refine_with_constraints") && a.h<PPL::Constraint_System>(1, "Constraint_System")) {
+      const PPL::Constraint_System& k = *a.h<PPL::Constraint_System>(1, "Constraint_System"); if (op == "add_constraints") c.add_constraints(k); else c.refine_with_constraints(k); mut = true; }
+    else if ((op == "add_congruence" || op == "refine_with_congruence") && a.h<PPL::Congruence>(1, "Congruence")) {
+      const PPL::Congruence& k = *a.h<PPL::Congruence>(1, "Congruence"); if (op == "add_congruence") c.add_congruence(k); else c.refine_with_congruence(k); mut = true; }
+    else if ((op == "add_congruences" || op == "refine_with_congruences") && a.h<PPL::Congruence_System>(1, "Congruence_System")) {
+      const PPL::Congruence_System& k = *a.h<PPL::Congruence_System>(1, "Congruence_System"); if (op == "add_congruences") c.add_congruences(k); else c.refine_with_congruences(k); mut = true; }
     else return 0;
   }
   catch (const std::exception& e) { threw = true; expect_code = code_of_exception(e); }
@@ -254,7 +277,12 @@ struct CallCtx {
     if (it == tops->end() || !it->second.join) return false;          // class without a C++ shadow: the entry point is not called
     if (x == y) return true;
     if (picked.size() >= 2 && std::string(HTN(picked[1].first)) != HTN(picked[0].first)) return true;
+    // harness-side computation: no timeout of the simulation may interrupt it (weight watcher, simulated clock, pending abandon request)
+    void (*saved_cf)(void) = PPL::Weightwatch_Traits::check_function; PPL::Weightwatch_Traits::check_function = nullptr;
+    bool saved_clock = g_clock.active; g_clock.active = false;
+    const PPL::Throwable* volatile saved_ab = PPL::abandon_expensive_computations; PPL::abandon_expensive_computations = nullptr;
     (void) it->second.join(x, y);     // a failure (dimension / topology mismatch) leaves the call to be rejected by the library
+    PPL::abandon_expensive_computations = saved_ab; g_clock.active = saved_clock; PPL::Weightwatch_Traits::check_function = saved_cf;
     return true;
   }
   void after_load(int r, void* h) {
@@ -318,7 +346,10 @@ struct CallCtx {
     TypeOps& to = (*tops)[cls];
     bool binary = picked.size() >= 2 && picked[1].first == picked[0].first;
     if (binary && !picked_clones[1]) return;
-    FaithArgs a{ opn, picked_clones[0], binary ? picked_clones[1] : nullptr, picked[0].second, dims_drawn.size() > 0 ? dims_drawn[0] : 0UL, dims_drawn.size() > 1 ? dims_drawn[1] : 0UL, r };
+    FaithArgs a{ opn, picked_clones[0], binary ? picked_clones[1] : nullptr, picked[0].second, dims_drawn.size() > 0 ? dims_drawn[0] : 0UL, dims_drawn.size() > 1 ? dims_drawn[1] : 0UL, r, {} };
+    for (auto& pk : picked) a.hs.push_back({ HTN(pk.first), pk.second });
+    // a syntactic argument that is the same object as an output handle has been overwritten by the call: not replayable
+    for (size_t i = 1; i < picked.size(); ++i) for (size_t j = 1; j < picked.size(); ++j) if (i != j && picked[i].second == picked[j].second && a.hs[i].first == "Coefficient" && (opn == "maximize" || opn == "minimize")) return;
     std::string why; int v = 0;
     try { v = to.faith(a, why); } catch (...) { v = 0; }
     if (v == 0) return;
